@@ -12,7 +12,7 @@
    cpre/cpost, output finalisation finout, for both values of finalize_correlation_subqueries, and for
    collections of any length with any reference structure (forward and self references included). *)
 From Coq Require Import NArith List Bool Sorted.
-From PS Require Import Base.Outcome Model.Collection Spec.Collection Proofs.CollectionP Proofs.ClosureP.
+From PS Require Import Base.Outcome Model.Collection Spec.Collection Proofs.CollectionP Proofs.ClosureP Proofs.PerCondP.
 Import ListNotations.
 
 (* collecting mode: the result is the concatenation, in collection order, of the queries each rule yields on its
@@ -157,6 +157,53 @@ Theorem C08_isolation_closure :
     nth_error (trees drule crule C) i = nth_error (trees drule crule C') i.
 Proof. exact closure_isolation. Qed.
 Print Assumptions C08_isolation_closure.
+
+(* "exactly one query per condition": a detection rule whose output is enabled and whose conditions convert to
+   qs emits exactly length qs queries, in the order of the conditions, the k-th one being the finalisation of
+   the k-th condition's query with index k (finalize_query receives the position) - for both ways the
+   stored/raw decision can go (back reference, finalize_correlation_subqueries) *)
+Theorem C08_one_query_per_condition :
+  forall (query drule crule : Type) (conv1 : drule -> outcome (list query))
+         (finq : payload drule crule -> nat -> query -> outcome query) (cpre : crule -> outcome unit)
+         (cpost : crule -> list (list query) -> outcome (list query)) (fcs : bool)
+         (d : drule) (br : bool) (qs fqs : list query),
+    conv1 d = Ok qs ->
+    ret (alone query drule crule conv1 finq cpre cpost fcs (Leaf d true br)) = Ok fqs ->
+    length fqs = length qs /\
+    forall k, k < length qs ->
+      exists q q', nth_error qs k = Some q /\ nth_error fqs k = Some q' /\ finq (PD d) k q = Ok q'.
+Proof. exact leaf_one_query_per_condition. Qed.
+Print Assumptions C08_one_query_per_condition.
+
+(* a rule whose query finalisation fails: its outcome is that of the first condition (in order) whose
+   finalisation fails; every earlier condition finalised *)
+Theorem C08_first_failing_condition :
+  forall (query drule crule : Type) (conv1 : drule -> outcome (list query))
+         (finq : payload drule crule -> nat -> query -> outcome query) (cpre : crule -> outcome unit)
+         (cpost : crule -> list (list query) -> outcome (list query)) (fcs : bool)
+         (d : drule) (br : bool) (qs : list query),
+    conv1 d = Ok qs ->
+    is_okb (ret (alone query drule crule conv1 finq cpre cpost fcs (Leaf d true br))) = false ->
+    exists k q, nth_error qs k = Some q /\
+                ret (alone query drule crule conv1 finq cpre cpost fcs (Leaf d true br)) = recast (finq (PD d) k q) /\
+                forall j qj, j < k -> nth_error qs j = Some qj -> is_okb (finq (PD d) j qj) = true.
+Proof. exact leaf_first_failing_condition. Qed.
+Print Assumptions C08_first_failing_condition.
+
+(* output switched off (referenced without generate: true): nothing is emitted; the rule can only fail through a
+   finalisation whose result the referring rules need *)
+Theorem C08_output_off_emits_nothing :
+  forall (query drule crule : Type) (conv1 : drule -> outcome (list query))
+         (finq : payload drule crule -> nat -> query -> outcome query) (cpre : crule -> outcome unit)
+         (cpost : crule -> list (list query) -> outcome (list query)) (fcs : bool)
+         (d : drule) (br : bool) (qs : list query),
+    conv1 d = Ok qs ->
+    ret (alone query drule crule conv1 finq cpre cpost fcs (Leaf d false br)) = Ok [] \/
+    (fcs || negb br = true /\ is_okb (Collection.fin_all query drule crule finq (PD d) 0 qs) = false /\
+     ret (alone query drule crule conv1 finq cpre cpost fcs (Leaf d false br)) =
+     recast (Collection.fin_all query drule crule finq (PD d) 0 qs)).
+Proof. exact leaf_output_off. Qed.
+Print Assumptions C08_output_off_emits_nothing.
 
 (* non-vacuity: a collection with a failing rule in the middle, a rule referred to with generate: true and a
    correlation rule satisfies the premises, and the statement gives a non-trivial result *)
